@@ -35,9 +35,17 @@ func disc(branches ...string) gschema.Term {
 //   - discriminated unions whose branches are NOT declared in the alphabetical
 //     order of their discriminator values (T|S, V|S|T), as a field, as array
 //     items and as map values — G's only union S|T is declared alphabetically;
+//   - maps nested three and four levels deep over objects, enums, lists of objects and
+//     unions, and arrays between maps;
+//   - strings constrained by a `pattern` (anchored on both ends, one end, none; with and
+//     without meta-characters), whose documents are values around the literal core;
 //   - optional/required references to named scalars of every JSON type
 //     (bool, int64, float64; G has string): their documents include the zero
 //     values false, 0, 0.0, "" that an encoder may wrongly treat as "absent".
+// beyondG marks the schemas added here: at equal size a member of G stays the
+// witness of a failure kind, so widening this set does not rename listed findings.
+var beyondG = map[string]bool{}
+
 func c11Schemas(thorough bool) []gschema.Schema {
 	schemas := gschema.Enumerate(thorough)
 	seen := map[string]bool{}
@@ -77,6 +85,36 @@ func c11Schemas(thorough bool) []gschema.Schema {
 			add(field1(irgen.Map(ref(a.Name)), false, a))
 		}
 	}
+	// maps nested three levels deep (and four in the thorough tier) over every kind of
+	// non-scalar value a generated decoder has to descend into, plus the shapes where an
+	// array sits between two maps: G stops at containers of containers
+	m := irgen.Map
+	deepLeaves := []gschema.Term{ref("S"), irgen.Enum("str"), irgen.Array(ref("S")), disc("S", "T")}
+	for _, l := range deepLeaves {
+		add(field1(m(m(m(l))), true))
+		if thorough {
+			add(field1(m(m(m(l))), false))
+			add(field1(m(m(m(m(l)))), true))
+		}
+	}
+	for _, t := range []gschema.Term{m(m(irgen.Array(m(ref("S"))))), m(irgen.Array(m(m(ref("S"))))), irgen.Array(m(m(m(ref("S"))))), irgen.Array(irgen.Array(irgen.Array(ref("S")))), m(m(m(irgen.S("string"))))} {
+		add(field1(t, true))
+	}
+	// strings constrained by a regular expression: anchored on both ends (which cog
+	// reads as a constant), on one end only, not at all, and with meta-characters
+	patterns := []string{"^ab$", "^ab", "ab$", "ab", "^a.b$", "^ab+"}
+	for _, pat := range patterns {
+		t := irgen.S("pattern:" + pat)
+		add(field1(t, true))
+		add(field1(t, false))
+		if thorough {
+			add(field1(irgen.Array(t), false))
+			add(field1(irgen.Map(t), false))
+		}
+	}
 	sort.SliceStable(extra, func(i, j int) bool { return extra[i].Size() < extra[j].Size() })
+	for _, s := range extra {
+		beyondG[s.String()] = true
+	}
 	return append(schemas, extra...)
 }
